@@ -233,6 +233,17 @@ fn ann_push(line: &str) {
         l.push_str(&x);
     }
     ANN.lock().unwrap_or_else(|e| e.into_inner()).push(l);
+    ann_flush_late();
+}
+/// Operations performed from INSIDE the operation in progress whose place, for the model, is right AFTER it (requests
+/// made from inside the poll of an inner call, `manual onpoll`): they are appended when the line of the operation in
+/// progress has been written.
+static ANN_LATE: Mutex<Vec<String>> = Mutex::new(Vec::new());
+fn ann_flush_late() {
+    let late: Vec<String> = std::mem::take(&mut *ANN_LATE.lock().unwrap_or_else(|e| e.into_inner()));
+    if !late.is_empty() {
+        ANN.lock().unwrap_or_else(|e| e.into_inner()).extend(late);
+    }
 }
 fn ann_push_plain(line: &str) {
     ANN.lock().unwrap_or_else(|e| e.into_inner()).push(line.to_string());
@@ -260,6 +271,7 @@ pub fn take_annotated() -> Vec<String> {
 pub fn begin_case() {
     OBS.lock().unwrap_or_else(|e| e.into_inner()).clear();
     ANN.lock().unwrap_or_else(|e| e.into_inner()).clear();
+    ANN_LATE.lock().unwrap_or_else(|e| e.into_inner()).clear();
     SERIAL.store(0, Ordering::SeqCst);
     SKEW_NS.store(0, Ordering::SeqCst);
     CASE_START_NS.store(VIRT_NS.load(Ordering::SeqCst), Ordering::SeqCst);
@@ -494,6 +506,7 @@ impl Future for InnerFut {
             panic!("inner future polled after completion");
         }
         if self.out == Out::Never {
+            run_poll_hooks(self.c);
             return Poll::Pending;
         }
         if self.out == Out::Hog {
@@ -508,6 +521,7 @@ impl Future for InnerFut {
         }
         if let Some(s) = self.sleep.as_mut() {
             if s.as_mut().poll(cx).is_pending() {
+                run_poll_hooks(self.c);
                 return Poll::Pending;
             }
         }
@@ -551,8 +565,13 @@ thread_local! {
     /// `manual ondrop c=<c> by=<c2> <arrive words>`: when the unfinished inner future of caller c is destroyed,
     /// request c2 arrives from inside that destructor, before the inner future has released anything
     static DROP_HOOKS: std::cell::RefCell<BTreeMap<usize, (usize, String, Requester)>> = std::cell::RefCell::new(BTreeMap::new());
+    /// `manual onpoll c=<c> by=<c2> <arrive words>`: at the next poll of the inner future of caller c that leaves it
+    /// pending, request c2 arrives FROM INSIDE THAT POLL (the wrapped service fans out through a clone of the
+    /// middleware it sits behind) and is polled once right there; several hooks for one c fire in the order given
+    static POLL_HOOKS: std::cell::RefCell<BTreeMap<usize, Vec<(usize, String, Requester)>>> = std::cell::RefCell::new(BTreeMap::new());
     static PARKED: std::cell::RefCell<Vec<(usize, Slot)>> = std::cell::RefCell::new(Vec::new());
     static KNOWN: std::cell::RefCell<std::collections::BTreeSet<usize>> = std::cell::RefCell::new(Default::default());
+    static PARKED_KEPT: std::cell::RefCell<Vec<(usize, Slot)>> = std::cell::RefCell::new(Vec::new());
 }
 
 fn run_drop_hook(c: usize) {
@@ -594,6 +613,8 @@ fn run_drop_hook(c: usize) {
         }
     }));
     ann_attach_obs(ann_ix, obs_from);
+    // requests nested in the poll of c2 (`manual onpoll`) come right after its `poll c2` line
+    ann_flush_late();
     match polled {
         Ok(Poll::Pending) => PARKED.with(|p| p.borrow_mut().push((c2, slot))),
         Ok(Poll::Ready(v)) => {
@@ -603,6 +624,89 @@ fn run_drop_hook(c: usize) {
         Err(_) => {
             log(format!("result {} panic", c2));
             let _ = catch_unwind(AssertUnwindSafe(move || drop(slot)));
+        }
+    }
+}
+
+/// Requests made by the wrapped service itself while the inner call of caller `c` is being polled (`manual onpoll`).
+/// The inner future has looked at its own state first (`join!(own_work, child_1, child_2, …)` polls in that order) and is
+/// going to stay pending: each armed request arrives through the adapter's `requester()` — a clone of the very
+/// middleware the inner call sits behind — and is polled once, here, inside the poll of its parent (and of whatever
+/// the middleware wraps around that poll). Afterwards its future is handed to the top-level poller (as if the parent
+/// had put it into a `FuturesUnordered` owned elsewhere). For the model the nested request is an ordinary one:
+/// `arrive c2 …`, `poll c2` right AFTER the operation that polled the parent (whose own events all precede it).
+fn run_poll_hooks(c: usize) {
+    let jobs = POLL_HOOKS.with(|h| h.borrow_mut().remove(&c));
+    let Some(jobs) = jobs else { return };
+    for (c2, words, req) in jobs {
+        if KNOWN.with(|k| !k.borrow_mut().insert(c2)) {
+            continue;
+        }
+        log_raw(format!("#onpoll {} {}", c, c2));
+        let ws: Vec<&str> = words.split_whitespace().collect();
+        let kv = Kv::parse(&ws);
+        let late_ix = {
+            let mut late = ANN_LATE.lock().unwrap_or_else(|e| e.into_inner());
+            late.push(format!("arrive {} {}", c2, words));
+            late.len()
+        };
+        let Some(f) = req(c2, &kv) else { continue };
+        // both lines are in place before the poll: what the nested request does to requests nested in IT comes after
+        ANN_LATE.lock().unwrap_or_else(|e| e.into_inner()).push(format!("poll {}", c2));
+        let obs_from = OBS.lock().unwrap_or_else(|e| e.into_inner()).len();
+        let mut slot = Slot { fut: f, flag: Arc::new(Flag::new(false)), polled: true, keep: kv.u64("keep", 0) == 1, coop: false, burn: false };
+        log_raw(format!("#fp {} {}", c2, now_ms()));
+        let waker = Waker::from(slot.flag.clone());
+        let mut cx = Context::from_waker(&waker);
+        let flag = slot.flag.clone();
+        let polled = catch_unwind(AssertUnwindSafe(|| {
+            let mut rounds = 0;
+            loop {
+                flag.0.store(false, Ordering::SeqCst);
+                match poll_slot(&mut slot.fut, &mut cx, false) {
+                    Poll::Ready(v) => return Poll::Ready(v),
+                    Poll::Pending => {
+                        rounds += 1;
+                        if !flag.0.load(Ordering::SeqCst) || rounds >= SELF_WAKE_ROUNDS {
+                            return Poll::Pending;
+                        }
+                    }
+                }
+            }
+        }));
+        {
+            // choices observed during the nested poll belong to its own line
+            let mut o = OBS.lock().unwrap_or_else(|e| e.into_inner());
+            if obs_from < o.len() {
+                let mine: Vec<String> = o.split_off(obs_from);
+                drop(o);
+                let mut late = ANN_LATE.lock().unwrap_or_else(|e| e.into_inner());
+                if let Some(l) = late.get_mut(late_ix) {
+                    for x in mine {
+                        l.push(' ');
+                        l.push_str(&x);
+                    }
+                }
+            }
+        }
+        match polled {
+            Ok(Poll::Pending) => {
+                log_raw(format!("#pollend {} {} pending", c2, now_ms()));
+                PARKED.with(|p| p.borrow_mut().push((c2, slot)))
+            }
+            Ok(Poll::Ready(v)) => {
+                if slot.keep {
+                    // (a kept nested future: released with its caller id like any other)
+                    PARKED_KEPT.with(|p| p.borrow_mut().push((c2, slot)));
+                } else {
+                    drop(slot);
+                }
+                log(format!("result {} {}", c2, v));
+            }
+            Err(_) => {
+                log(format!("result {} panic", c2));
+                let _ = catch_unwind(AssertUnwindSafe(move || drop(slot)));
+            }
         }
     }
 }
@@ -969,7 +1073,9 @@ pub async fn run_ops(mw: &mut dyn Mw, ops: &[String]) {
     let mut callers = Callers::new();
     let y = mw.yields();
     DROP_HOOKS.with(|h| h.borrow_mut().clear());
+    POLL_HOOKS.with(|h| h.borrow_mut().clear());
     PARKED.with(|p| p.borrow_mut().clear());
+    PARKED_KEPT.with(|p| p.borrow_mut().clear());
     KNOWN.with(|k| k.borrow_mut().clear());
     for (opi, line) in ops.iter().enumerate() {
         let words: Vec<&str> = line.split_whitespace().collect();
@@ -1053,10 +1159,18 @@ pub async fn run_ops(mw: &mut dyn Mw, ops: &[String]) {
                     DROP_HOOKS.with(|h| h.borrow_mut().insert(c as usize, (c2 as usize, rest.join(" "), r)));
                 }
             }
+            "manual" if words.get(1) == Some(&"onpoll") && mw.requester().is_some() => {
+                let kv = Kv::parse(&words[2..]);
+                if let (Some(c), Some(c2), Some(r)) = (kv.opt_u64("c"), kv.opt_u64("by"), mw.requester()) {
+                    let rest: Vec<&str> = words[2..].iter().cloned().filter(|w| !w.starts_with("c=") && !w.starts_with("by=")).collect();
+                    POLL_HOOKS.with(|h| h.borrow_mut().entry(c as usize).or_default().push((c2 as usize, rest.join(" "), r)));
+                }
+            }
             "manual" => {
                 if words.get(1) == Some(&"dropsvc") {
                     // an armed destructor hook owns a service handle: "every handle dropped" disarms it
                     DROP_HOOKS.with(|h| h.borrow_mut().clear());
+                    POLL_HOOKS.with(|h| h.borrow_mut().clear());
                 }
                 let kv = Kv::parse(&words[1..]);
                 mw.manual(words.get(1).cloned().unwrap_or(""), &kv);
@@ -1069,12 +1183,18 @@ pub async fn run_ops(mw: &mut dyn Mw, ops: &[String]) {
             callers.seen.insert(c2);
             callers.slots.insert(c2, slot);
         }
+        let kept: Vec<(usize, Slot)> = PARKED_KEPT.with(|p| std::mem::take(&mut *p.borrow_mut()));
+        for (c2, slot) in kept {
+            callers.seen.insert(c2);
+            callers.kept.insert(c2, slot);
+        }
         yields(y.max(1)).await;
         if words[0] != "settle" && words[0] != "dropall" {
             ann_push(line.trim());
         }
     }
     DROP_HOOKS.with(|h| h.borrow_mut().clear());
+    POLL_HOOKS.with(|h| h.borrow_mut().clear());
     // end of case: drop whatever is still alive, in ascending id (events of the tear-down are not compared)
     log_raw("end".into());
     let live = callers.live();
